@@ -771,11 +771,51 @@ def replay_model_j_update(obligation, model, meta):
     return {'confirmed': False, 'tried': 3}
 
 
+def replay_pattern(obligation=None, model=None, meta=None):
+    """native: on dynamic stock cases every position a model declares for a Jacobian block is in the stored template of that block, and
+    the live matrix has the template's pattern after an update, in both accumulation modes"""
+    import contextlib
+    import io
+    import logging
+    import numpy as np
+    import andes
+    logging.getLogger('andes').setLevel(logging.CRITICAL)
+    n = 0
+    for case in ('ieee14/ieee14_full.xlsx', 'kundur/kundur_full.xlsx'):
+        for ipadd in (1, 0):
+            n += 1
+            with contextlib.redirect_stdout(io.StringIO()), contextlib.redirect_stderr(io.StringIO()):
+                ss = andes.load(andes.get_case(case), default_config=True, no_output=True, config_option=['System.ipadd=%d' % ipadd])
+                ss.PFlow.run()
+                ss.TDS.init()
+                ss.j_update(ss.exist.pflow_tds)
+            for name in ('fx', 'fy', 'gx', 'gy'):
+                tpl = ss.dae.tpl[name]
+                stored = set(zip((int(i) for i in tpl.I), (int(j) for j in tpl.J)))
+                declared = set()
+                for mdl in ss.exist.pflow_tds.values():
+                    for rows, cols, _ in mdl.triplets.zip_ijv(name):
+                        declared.update(zip((int(i) for i in np.atleast_1d(rows)), (int(j) for j in np.atleast_1d(cols))))
+                    for rows, cols, _ in mdl.triplets.zip_ijv(name + 'c'):
+                        declared.update(zip((int(i) for i in np.atleast_1d(rows)), (int(j) for j in np.atleast_1d(cols))))
+                missing = sorted(declared - stored)
+                where = {'case': case, 'config': 'System.ipadd=%d' % ipadd, 'block': name}
+                if missing:
+                    return {'confirmed': True, 'inputs': where, 'observed': '%d declared position(s) missing from the stored template, first %r' % (len(missing), missing[0]),
+                            'native_cmd': 'contracts/C03_assembly.py replay_pattern'}
+                live = ss.dae.__dict__[name]
+                live_pos = set(zip((int(i) for i in live.I), (int(j) for j in live.J)))
+                if live_pos != stored:
+                    return {'confirmed': True, 'inputs': where, 'observed': 'pattern of the live matrix after an update (%d entries) differs from the stored template (%d entries)' % (
+                        len(live_pos), len(stored)), 'native_cmd': 'contracts/C03_assembly.py replay_pattern'}
+    return {'confirmed': False, 'tried': n}
+
+
 def add_obligations(pack, ss, tier, pid='C03'):
     pack.trust('kvxopt.spmatrix(V, I, J, size) builds the matrix with V[k] accumulated at (I[k], J[k]); ipadd/ipset add/set in place',
                'hand-written j_numeric of a model or block appends to constant Jacobian names only (so position #idx of '
                'triplets.vjac[<variable name>] is the idx-th generated entry); no stock model defines j_numeric')
-    items = [(model_j_update(pid), None, replay_model_j_update)] + [(c,) for c in jac_eq_var_name(pid)] + [(system_store_sparse_pattern(pid),), (model_store_sparse_pattern(pid),), (system_j_update(pid), None, replay_system_j_update), (j_islands(pid), None, replay_j_islands), (j_islands_rebuild(pid), None, replay_j_islands)] + [(c,) for c in dae_restore_sparse(pid) + dae_build_pattern(pid)]
+    items = [(model_j_update(pid), None, replay_model_j_update)] + [(c,) for c in jac_eq_var_name(pid)] + [(system_store_sparse_pattern(pid),), (model_store_sparse_pattern(pid),), (system_j_update(pid), None, replay_system_j_update), (j_islands(pid), None, replay_j_islands), (j_islands_rebuild(pid), None, replay_j_islands)] + [(c, None, replay_pattern) for c in dae_restore_sparse(pid) + dae_build_pattern(pid)]
     from contracts import fn_sequence as Q
     items += [(c,) for c in Q.jactriplet(pid)]
     run_contracts(pack, items)
